@@ -262,8 +262,8 @@ func init() {
 			}
 			return e.newError("%w", first)
 		},
-		"strings.Join":           opaqueString,
-		"encoding/hex.Dump":      opaqueString,
+		"strings.Join":                opaqueString,
+		"encoding/hex.Dump":           opaqueString,
 		"encoding/hex.EncodeToString": opaqueString,
 		"bytes.Equal": func(e *Engine, fn *ssa.Function, a []Value) Value {
 			x, y := a[0].(SliceV), a[1].(SliceV)
